@@ -12,7 +12,7 @@
 From Coq Require Import List ZArith NArith Bool.
 From Mimium Require Import Heap.Model.
 From Mimium Require Import Bvm.Model Bvm.Verify Bvm.SoundTop Bvm.LmmmBridge Bvm.Examples.
-From Mimium Require Import Bvm.XModel Bvm.XVerify Bvm.XInv Bvm.XSoundTop Bvm.XBridge Bvm.XSim Bvm.XExamples.
+From Mimium Require Import Bvm.XModel Bvm.XVerify Bvm.XInv Bvm.XSoundTop Bvm.XBridge Bvm.XSim Bvm.XSoundVm Bvm.XExamples.
 From Mimium Require Lmmm.Machine.
 Import ListNotations.
 Local Open Scope N_scope.
@@ -140,9 +140,13 @@ Proof. vm_compute. repeat split; reflexivity. Qed.
      DynSignature   the function behind an indirect callee does not fit the call site (words of parameters / results)
      DynReentry     a closure is entered while the cursor of its own state storage is not 0
      DynOpenWrite   SetUpValue through an OPEN cell (a write into another activation's registers)
-     DynCellWidth   an upvalue cell is not as wide as the running function's upindexes entry says.
-   C03_bvm_strict_agrees ties the two semantics: until one of the last four fires they have the same outcome.
-   Handle liveness is the subject of the C12 monitor.  Not covered: arrays, boxed sum types, integer arithmetic.
+     DynCellWidth   an upvalue cell is not as wide as the running function's upindexes entry says
+     DynElemWidth   the array a GetArrayElem / SetArrayElem meets has another elem_word_size than the annotation says (see
+                    the array section below).
+   C03_bvm_strict_agrees ties the two semantics: until one of the last five fires they have the same outcome.
+   Handle liveness is the subject of the C12 monitor.  Since the array extension the SAME theorems cover AllocArray,
+   GetArrayElem, SetArrayElem, the array builtins and `_mimium_schedule_at` (xverify accepts them; see below).  Not covered:
+   integer arithmetic (AddI .. LogI, CastItoB), which bytecodegen does not emit for any program of the check.
    `xminv p x`: globals of the declared size, global cursor 0, states_stack empty, the closure table a well-formed slot
    map in which every closure has a valid function index, as many cells as its function has upindexes and a state
    storage of the size of its function's skeleton (Bvm/XSoundTop.v, Bvm/XInv.v). *)
@@ -188,15 +192,15 @@ Proof. exact xexec_dsp_agree. Qed.
 
 (* on a program without any instruction of the closure layer the extended machine is the machine of Bvm/Model.v (so
    C03_bvm_verified_safe, _main_safe, _session_safe and _fuel are theorems about the model the check extracts and runs):
-   `xm C H ce ar m` is the extended machine with core m, empty states_stack and any closures / heap / cells / arrays,
-   `lift` maps Ret n m' to XRet n (xm .. m') and every other outcome to itself *)
+   `xm C H ce ar tk m` is the extended machine with core m, empty states_stack and any closures / heap / cells / arrays /
+   queued scheduler tasks, `lift` maps Ret n m' to XRet n (xm .. m') and every other outcome to itself *)
 Theorem C03_bvm_xmodel_is_model_on_old_subset : forall (A : arith) (p : program) (strict : bool)
-    (C : smap clos) (H : smap hobj) (ce : list upval) (ar : smap arr),
+    (C : smap clos) (H : smap hobj) (ce : list upval) (ar : smap arr) (tk : list (Z * Z)),
   closure_free p = true ->
   forall (fuel : nat) (inputs : list Z) (m : mach),
-  xexec_dsp A p strict fuel inputs (xm C H ce ar m) = lift C H ce ar (exec_dsp A p fuel inputs m) /\
-  xexec_main A p strict fuel (xm C H ce ar m) = lift C H ce ar (exec_main A p fuel m).
-Proof. intros A p strict C H ce ar Hf fuel inputs m. split; [apply xexec_dsp_old|apply xexec_main_old]; exact Hf. Qed.
+  xexec_dsp A p strict fuel inputs (xm C H ce ar tk m) = lift C H ce ar tk (exec_dsp A p fuel inputs m) /\
+  xexec_main A p strict fuel (xm C H ce ar tk m) = lift C H ce ar tk (exec_main A p fuel m).
+Proof. intros A p strict C H ce ar tk Hf fuel inputs m. split; [apply xexec_dsp_old|apply xexec_main_old]; exact Hf. Qed.
 
 (* ---- a real dumped program with closures (a counter whose captured variable lives in a closed upvalue cell, made by
         main and kept in a global) is accepted and runs in the instrumented semantics: every sample returns one word, cursor
@@ -233,3 +237,81 @@ Example C03_bvm_open_upvalue_read_at_stack_top_accepted :
   | None => False
   end.
 Proof. vm_compute. split; reflexivity. Qed.
+
+
+(* ======================================================================================================================
+   Arrays, the array builtins and the scheduler call.  `xverify` (Bvm/XVerify.v) accepts AllocArray, GetArrayElem,
+   SetArrayElem, CallExtFun of len / split_head / split_tail / prepend / append and their `$arityN` specialisations, and
+   CallExtFun of `_mimium_schedule_at`; the three closure theorems above (stated for the instrumented semantics) hold for
+   this larger set of programs unchanged.  What cannot be decided on untyped bytecode is a NAMED dynamic outcome:
+     DynHandle     (also) an array handle read from a register names no live array; elem_word_size = 0; split_head /
+                   split_tail of an empty array; prepend / append / split `$arityN` on an array of another width; the heap
+                   handle given to `_mimium_schedule_at` is stale  - the panics of vm.rs / builtin_functins.rs, value dependent
+     DynElemWidth  (instrumented semantics only) GetArrayElem / SetArrayElem have NO width operand: they move elem_word_size
+                   words of whatever array the handle names.  The dump carries an untrusted annotation `f_ew` (program counter
+                   -> width, from the MIR types / the preceding AllocArray); the verifier checks stack safety FOR that width,
+                   the instrumented semantics checks the width at run time.  An array INDEX needs no check: vm.rs clamps
+                   it (`as i64` saturates, then clamp(0, len - 1); an empty array reads as zeros and ignores stores).
+   The theorem below restates the result for the TRANSCRIPTION of vm.rs (strict = false), the semantics the check runs
+   against the real VM on every dumped program: on accepted bytecode either one of the five checks only the instrumentation
+   makes fires, or the transcription returns exactly the declared words (storage size, cursor 0, closure table in shape),
+   runs out of fuel, or stops with a fault of the dynamic class - never StackReadOOB / ConstOOB / FnIndexOOB / JumpOOB /
+   StateOOB / GlobalOOB / BadNret / ExtIndexOOB / JumpTableOOB / TypeTableOOB / BaseUnderflow / NoClosureEnv /
+   UpvalueIndexOOB, never an unsupported instruction.  PARTIAL: the dynamic class is excluded; the execution of the queued
+   scheduler tasks (SimpleScheduler::on_sample -> execute_closure) is not modelled (C11's subject). *)
+Theorem C03_bvm_arrays_verified_safe_partial : forall (p : program), xverify p = true ->
+  forall (A : arith) (fuel : nat) (inputs : list Z) (x : xmach) (f : fn),
+  dsp_fn p = Some f -> xminv p x -> f_pwords f <= lenN inputs ->
+  (exists d, xexec_dsp A p true fuel inputs x = XFault (Dyn d) /\ strict_only d = true) \/
+  match xexec_dsp A p false fuel inputs x with
+  | XRet n x' => n = f_nret f /\ lenN (x_stack x') = f_nret f /\ lenN (m_state (x_core x')) = f_ssize f /\ xminv p x'
+  | XOutOfFuel => True
+  | XFault e => is_dyn e = true
+  | XUnsupported _ => False
+  end.
+Proof. exact xexec_dsp_vm_safe. Qed.
+
+Theorem C03_bvm_arrays_main_safe_partial : forall (p : program), xverify p = true ->
+  forall (A : arith) (fuel : nat),
+  (exists d, xexec_main A p true fuel (xmach0 p) = XFault (Dyn d) /\ strict_only d = true) \/
+  match xexec_main A p false fuel (xmach0 p) with
+  | XRet n x' => xminv p x' /\ lenN (x_stack x') = n
+  | XOutOfFuel => True
+  | XFault e => is_dyn e = true
+  | XUnsupported _ => False
+  end.
+Proof. exact xexec_main_vm_safe. Qed.
+
+(* ---- a real dumped program with arrays (literals of one-word and two-word elements, indexing by `now`, split_head$arity1,
+        len) is accepted and runs in the instrumented semantics: the annotation fits, one word per sample, cursor 0 ---- *)
+Example C03_bvm_ex_array_accepted : xverify ex_array = true.
+Proof. vm_compute. reflexivity. Qed.
+
+Example C03_bvm_ex_array_runs :
+  match xafter_main true ex_array with
+  | Some x => xsamples true ex_array 2 x = [Some (1, 0, 0, 0); Some (1, 0, 0, 0)]
+  | None => False
+  end.
+Proof. vm_compute. reflexivity. Qed.
+
+(* ---- why the element width must be checked: SetArrayElem stores a three-word element from register 1 when only registers 0
+        and 1 are written.  With the honest annotation (width 3) the verifier rejects the bytecode and the VM's transcription
+        faults (get_stack_range past the end of the stack).  With a LYING annotation (width 1) the verifier accepts; the
+        instrumented semantics then stops with DynElemWidth - the outcome the theorems exclude - where the transcription
+        faults ---- *)
+Example C03_bvm_ex_array_wide_store_rejected :
+  xverify (ex_array_wide_store 3) = false /\ xfirst_bad (ex_array_wide_store 3) = Some (1, 2) /\
+  match xafter_main false (ex_array_wide_store 3) with
+  | Some x => xexec_dsp toy (ex_array_wide_store 3) false 100 [] x = XFault StackReadOOB
+  | None => False
+  end.
+Proof. vm_compute. repeat split; reflexivity. Qed.
+
+Example C03_bvm_ex_array_lying_annotation_caught :
+  xverify (ex_array_wide_store 1) = true /\
+  match xafter_main true (ex_array_wide_store 1) with
+  | Some x => xexec_dsp toy (ex_array_wide_store 1) true 100 [] x = XFault (Dyn DynElemWidth) /\
+              xexec_dsp toy (ex_array_wide_store 1) false 100 [] x = XFault StackReadOOB
+  | None => False
+  end.
+Proof. vm_compute. repeat split; reflexivity. Qed.
